@@ -72,6 +72,7 @@ def run(S):
         _static(S, mode)
         _dynamic(S, mode)
     _multi_block(S)
+    _assembler(S)
     bounded(S)
 
 
@@ -233,6 +234,112 @@ def _multi_block(S):
 
 # ---------------------------------------------------------------------------
 # replays and bounded stand-in on the real classes
+# ---------------------------------------------------------------------------
+class _CooSumDuplicates:
+    """dependency contract of scipy.sparse.coo_matrix((vals, (rows, cols)), shape).tocsc(): entry (r, c) is the sum of the
+    values listed for (r, c); indices must be inside the shape (scipy raises otherwise)"""
+    def __init__(self, arg, shape=None):
+        vals, (rows, cols) = arg
+        self.vals, self.rows, self.cols, self.shape = onp.asarray(vals, dtype=object), onp.asarray(rows), onp.asarray(cols), tuple(int(v) for v in shape)
+        if not (self.vals.shape == self.rows.shape == self.cols.shape and self.vals.ndim == 1):
+            raise ValueError('coo_matrix: values / rows / cols of different lengths')
+
+    def tocsc(self):
+        K = onp.empty(self.shape, dtype=object)
+        K[...] = tm.ZERO
+        for v, r, c in zip(self.vals, self.rows, self.cols):
+            if not (0 <= int(r) < self.shape[0] and 0 <= int(c) < self.shape[1]):
+                raise ValueError('coo_matrix: index outside the matrix')
+            K[int(r), int(c)] = K[int(r), int(c)] + v
+        return K
+
+
+ASSEMBLY_CASES = OD([
+    # name: (conns, number of nodes, fields, constrained (node, component) pairs)
+    ('patch2/no-bc', ([[0, 1, 2], [2, 1, 3]], 4, 2, [])),
+    ('patch2/mixed-bc', ([[0, 1, 2], [2, 1, 3]], 4, 2, [(0, 0), (3, 0), (3, 1)])),
+    ('fan3/shared-node-constrained', ([[0, 1, 2], [0, 2, 3], [0, 3, 4]], 5, 2, [(0, 1), (2, 0), (2, 1)])),
+    ('unordered3/first-and-last-dof', ([[3, 0, 4], [1, 4, 0], [2, 1, 0]], 5, 2, [(0, 0), (4, 1)])),
+    ('scalar-field', ([[0, 1, 2], [2, 1, 3]], 4, 1, [(1, 0)])),
+    ('all-but-one-constrained', ([[0, 1, 2], [2, 1, 3]], 4, 2, [(0, 0), (0, 1), (1, 0), (1, 1), (2, 0), (3, 0), (3, 1)])),
+])
+
+
+def _assembler(S):
+    """the REAL assemble_sparse_stiffness_matrix and the REAL DofManager on fixed small topologies, symbolic (symmetric) element
+    blocks: entry (p, q) of the result = sum of the element entries whose row dof has unknown rank p and column dof rank q.
+    With the element clauses above (block = Hessian of the element energy) and the chain rule for the linear gather this is the
+    Hessian of the total energy in the unknowns (create_field is linear in Uu: C14)."""
+    from optimism import SparseMatrixAssembler as SMA, FunctionSpace
+    S.function('SparseMatrixAssembler.assemble_sparse_stiffness_matrix', SMA.assemble_sparse_stiffness_matrix, 'P')
+    S.assume('assembler clauses: symbolic values on %d fixed topologies / constraint patterns (not symbolic mesh sizes: those are C14\'s index-map contracts)' % len(ASSEMBLY_CASES))
+    old = SMA.coo_matrix
+    SMA.coo_matrix = _CooSumDuplicates
+    try:
+        for name, (conns, nN, nF, bcs) in ASSEMBLY_CASES.items():
+            conns_ = onp.array(conns)
+            nE, npe = conns_.shape
+            nodeSets = {'s%d' % k: onp.array([n]) for k, (n, c) in enumerate(bcs)}
+            ebcs = [FunctionSpace.EssentialBC(nodeSet='s%d' % k, component=c) for k, (n, c) in enumerate(bcs)]
+            from optimism import Mesh
+
+            class PE:
+                num_nodes = npe
+            mesh = Mesh.Mesh(coords=jnp.zeros((nN, 2)), conns=jnp.asarray(conns_), simplexNodesOrdinals=None, parentElement=PE(),
+                             parentElement1d=None, blocks=None, nodeSets=nodeSets, sideSets=None)
+            fs = type('FS', (), {'mesh': mesh})()
+            dm = FunctionSpace.DofManager(fs, nF, ebcs)
+            # symmetric symbolic element blocks: k[e,a,i,b,j] and k[e,b,j,a,i] are the same symbol (element blocks are Hessians)
+            k = onp.empty((nE, npe, nF, npe, nF), dtype=object)
+            for e in range(nE):
+                for a in range(npe):
+                    for i in range(nF):
+                        for b in range(npe):
+                            for j in range(nF):
+                                lo, hi = sorted([(a, i), (b, j)])
+                                k[e, a, i, b, j] = tm.var('k_%d_%d%d_%d%d' % (e, lo[0], lo[1], hi[0], hi[1]))
+            K = SMA.assemble_sparse_stiffness_matrix(k, conns_, dm)
+            # specification, independent of the DofManager's arrays: rank of an unconstrained dof among the unconstrained dofs in
+            # node-major order
+            fixed = set(bcs)
+            rank, r = {}, 0
+            for n in range(nN):
+                for c in range(nF):
+                    if (n, c) not in fixed:
+                        rank[(n, c)] = r
+                        r += 1
+            nU = r
+            shape_ok = tuple(K.shape) == (nU, nU)
+            S.add('SparseMatrixAssembler.assemble_sparse_stiffness_matrix/is_square_in_the_number_of_unknowns[%s]' % name, [], tm.TRUE if shape_ok else tm.FALSE)
+            if not shape_ok:
+                continue
+            spec = onp.empty((nU, nU), dtype=object)
+            spec[...] = tm.ZERO
+            for e in range(nE):
+                for a in range(npe):
+                    for i in range(nF):
+                        for b in range(npe):
+                            for j in range(nF):
+                                ra, rb = rank.get((conns[e][a], i)), rank.get((conns[e][b], j))
+                                if ra is not None and rb is not None:
+                                    spec[ra, rb] = spec[ra, rb] + k[e, a, i, b, j]
+            ideal.add_ideal_obligation(S, 'SparseMatrixAssembler.assemble_sparse_stiffness_matrix/entry_is_sum_of_element_entries_with_these_unknown_ranks[%s]' % name,
+                                       [], [(tm.lift(K[p_, q_]), spec[p_, q_]) for p_ in range(nU) for q_ in range(nU)])
+    finally:
+        SMA.coo_matrix = old
+    # conformance of the dependency stub with the real scipy on concrete data
+    from scipy.sparse import coo_matrix
+    rng = onp.random.default_rng(S.seed)
+    for _ in range(20):
+        n = int(rng.integers(1, 6)); m = int(rng.integers(0, 25))
+        rows, cols, vals = rng.integers(0, n, m), rng.integers(0, n, m), rng.standard_normal(m)
+        ref = coo_matrix((vals, (rows, cols)), shape=(n, n)).tocsc().toarray()
+        mine = _CooSumDuplicates(([tm.lift(float(v)) for v in vals], (rows, cols)), shape=(n, n)).tocsc()
+        got = onp.array([[float(tm.evaluate(x, {})) for x in row] for row in mine]).reshape(n, n)
+        if not onp.allclose(got, ref, atol=1e-12):
+            raise C.CheckerError('coo_matrix stub disagrees with scipy')
+
+
 # ---------------------------------------------------------------------------
 
 def _real_setup(order=1, mode2D='cartesian'):
